@@ -43,12 +43,16 @@ CRASH = ('SEGV', 'ABRT', 'FPE', 'ILL')
 SLEEP_US = 20000          # the "sleeping" backend
 BIG_PAD = 30000; BIG_SLEEP_US = 200000     # 'big backlog' rows
 WAIT_MS = 70              # a 'w' pause: the sleeping backend has drained everything and sleeps again
-KEYS = ('clock', 'sh', 'sleep_us', 'sigto', 'pad', 'wait_ms', 'noise', 'actor', 'act', 'script')
+KEYS = ('clock', 'sh', 'sleep_us', 'flush_ms', 'sigto', 'pad', 'wait_ms', 'noise', 'actor', 'act', 'script')
 
 
 # ---------------------------------------------------------------------------------------- cases
-def mkcase(script, actor, act, clock='sys', sh=1, sleep_us=0, noise=0, pad=0, sigto=10, wait_ms=WAIT_MS):
-    d = dict(clock=clock, sh=sh, sleep_us=sleep_us, sigto=sigto, pad=pad, wait_ms=wait_ms, noise=noise, actor=actor, act=act,
+def mkcase(script, actor, act, clock='sys', sh=1, sleep_us=0, noise=0, pad=0, sigto=10, wait_ms=WAIT_MS, flush_ms=None):
+    if flush_ms is None:
+        # library default (200 ms) except in the 'pause before the action' rows, where the sink is flushed whenever the
+        # backend is idle so that everything really is in the file when the action starts
+        flush_ms = 0 if script and script[-1] == 'w' else -1
+    d = dict(clock=clock, sh=sh, sleep_us=sleep_us, flush_ms=flush_ms, sigto=sigto, pad=pad, wait_ms=wait_ms, noise=noise, actor=actor, act=act,
              script=','.join(script))
     return ' '.join('%s=%s' % (k, d[k]) for k in KEYS)
 
@@ -58,6 +62,7 @@ def parse_case(case):
     d['tokens'] = [t for t in d.get('script', '').split(',') if t]
     for k in ('sh', 'sleep_us', 'sigto', 'pad', 'wait_ms', 'noise', 'actor'):
         d[k] = int(d.get(k, 0))
+    d['flush_ms'] = int(d.get('flush_ms', -1))
     return d
 
 
@@ -195,23 +200,27 @@ def gen_quick():
     return cases
 
 
-def t_base(rng, counts, finish=True):
-    """an interleaving of the threads' statements; a thread that has logged all of its statements finishes
-    (x, j) right away when finish is set, except the thread with the most statements"""
+def t_base(rng, counts, fracs=None, finish=True):
+    """an interleaving of the threads' statements: thread t's statements fall at random places within the first
+    fracs[t] of the script, so some threads are done early; a thread that has logged all of its statements
+    finishes (x, j) right away when finish is set and fracs[t] < 1"""
+    fracs = fracs or {}
+    pos = []
+    for t, n in counts.items():
+        pos += [(rng.random() * fracs.get(t, 1.0), t) for _ in range(n)]
+    pos.sort()
     left = dict(counts); out = []
-    keep = max(counts, key=lambda t: (counts[t], -t))
-    while any(left.values()):
-        t = rng.choice([k for k, v in left.items() for _ in range(v)])
+    for _, t in pos:
         out.append(str(t)); left[t] -= 1
-        if left[t] == 0 and finish and t != 0 and t != keep:
+        if left[t] == 0 and finish and t != 0 and fracs.get(t, 1.0) < 1.0:
             out += ['x%d' % t, 'j%d' % t]
     return out
 
 
 def gen_thorough(rng):
     cases = []
-    for bn, counts in enumerate(({0: 18, 1: 9, 2: 13}, {0: 12, 1: 15, 2: 13})):
-        base = t_base(rng, counts)
+    for bn, (counts, fracs) in enumerate((({0: 18, 1: 9, 2: 13}, {1: 0.4, 2: 0.75}), ({0: 12, 1: 15, 2: 13}, {2: 0.5}))):
+        base = t_base(rng, counts, fracs)
         # thread 0 logs first (a process-directed signal lands on main, which must have logged before)
         if base[0] != '0':
             base.remove('0'); base.insert(0, '0')
@@ -547,7 +556,7 @@ def shrink(exe, case, kind, tmpdir, timeout, budget_s=45):
     def build(tokens, **over):
         d = dict(c); d.update(over)
         return mkcase(tokens, d['actor'], d['act'], clock=d['clock'], sh=d['sh'], sleep_us=d['sleep_us'], noise=d['noise'], pad=d['pad'],
-                      sigto=d['sigto'], wait_ms=d['wait_ms'])
+                      sigto=d['sigto'], wait_ms=d['wait_ms'], flush_ms=d['flush_ms'])
 
     k = [0]
     deadline = time.time() + budget_s
@@ -689,7 +698,10 @@ def run(tier):
 
 
 def replay(path):
-    d = json.load(open(path))
+    if path.endswith('.case'):                      # a corpus file: its first case
+        d = {'case': next((l.strip() for l in open(path) if l.strip() and not l.startswith('#')), None)}
+    else:
+        d = json.load(open(path))
     cs = d.get('case')
     if not isinstance(cs, str):
         print('replay holds no concrete case; broken:', d.get('broken')); return 1
